@@ -795,20 +795,29 @@ impl Gen {
             0 => rng.range128(1, 10),
             1 => rng.range128(1, d),
             2 => res / 2,
-            3 => res * 9 / 10,
+            3 => res / 10 * 9,
             4 => res,
             5 => res.saturating_sub(1),
             6 => d * rng.range128(1, 50),
             _ => rng.log_range(res / 1_000_000 + 1, res / 4 + 2),
         }
         .max(1);
+        // mostly keep both reserves above one whole unit (the quantifier's domain); sometimes try to drain them
+        let amt = if dir == Dir::Remove && rng.chance(7, 8) { amt.min(res.saturating_sub(d).max(1)) } else { amt };
+        let amt = if dir == Dir::Add && rng.chance(7, 8) {
+            // adding to one side shrinks the other: stay where the other reserve keeps at least one unit
+            let other = if input { vo.b } else { vo.q };
+            if other > d { amt.min(mul_div(res, other - d, d).unwrap_or(amt).max(1)) } else { amt.min(res / 1000 + 1) }
+        } else {
+            amt
+        };
         // limits on both sides of and exactly at the quoted amount
         let quote = if input { curve_input(dir, amt, vo.q, vo.b, d) } else { curve_output(dir, amt, vo.q, vo.b, d) };
         let limit = match (quote, rng.below(8)) {
             (Some(qv), 0) => qv,
             (Some(qv), 1) => qv + 1,
             (Some(qv), 2) => qv.saturating_sub(1),
-            (Some(qv), 3) => qv * 2,
+            (Some(qv), 3) => qv.saturating_mul(2),
             (Some(qv), 4) => qv / 2,
             _ => 0,
         };
